@@ -405,6 +405,14 @@ func checkC09(an *Analysis, add func(Violation)) {
 			}
 		}
 	}
+	// "a reply that arrives any time before the deadline is accepted" holds for discovery as well: what reached the
+	// socket before the collection window closed is in the result (C11's oracle, its collecting rules only)
+	checkC11(an, func(v Violation) {
+		if v.Code == "stopped-collecting" || v.Code == "missing-entry" || v.Code == "window-short" {
+			v.Sig = "C09:discovery:" + v.Code
+			add(v)
+		}
+	})
 	// a listener that could not start, or was stopped, leaves nothing behind either
 	for _, e := range an.Notes["checkpoint-listen"] {
 		var cp map[string]int
@@ -468,6 +476,14 @@ func tailOf(res *engine.Result, n int) string {
 
 func checkC11(an *Analysis, add func(Violation)) {
 	for _, c := range an.Calls {
+		if c.St.Op == model.GetDevices && c.End != nil && c.Rec != nil && c.Rec.Obs.Failed() && len(an.Sc.Foreign) == 0 && !c.injected() && !hasListener(an.Sc) {
+			for _, f := range c.KFails {
+				if f.Err == "address already in use" {
+					add(Violation{Code: "failed", Sig: "C11:failed", Task: c.Task, Step: c.Step,
+						Detail: "GetDevices: discovery could not bind its port while another call of the same process was using it (calls sharing a bind port take turns): " + c.Rec.Obs.Err})
+				}
+			}
+		}
 		if c.St.Op != model.GetDevices || c.Begin == nil || c.End == nil || c.Rec == nil || len(c.Sends) != 1 || c.injected() {
 			continue
 		}
@@ -583,6 +599,19 @@ func checkC11(an *Analysis, add func(Violation)) {
 	}
 }
 
+// hasListener: some client of the scenario runs its event listener (which may sit on the very port a client binds
+// its requests to - then a request cannot be sent while it runs, and that is the configuration's doing).
+func hasListener(sc *engine.Scenario) bool {
+	for _, t := range sc.Tasks {
+		for _, st := range t.Steps {
+			if st.Kind == "listen" {
+				return true
+			}
+		}
+	}
+	return false
+}
+
 func lastRead(c *Call) string {
 	if len(c.Reads) == 0 {
 		return "none"
@@ -650,7 +679,7 @@ func listenerCheck(an *Analysis, prop string, relax func(e *model.Expect, data [
 							end = &res.Trace[i]
 						}
 					case "stop":
-						if e.Task == -1-ti && begin != nil && stop == nil && e.Seq > begin.Seq {
+						if (e.Task == -1-ti || (e.Task == ti && e.Step == si)) && begin != nil && stop == nil && end == nil && e.Seq > begin.Seq {
 							stop = &res.Trace[i]
 						}
 					case "on-connected", "on-event", "on-error", "status-changed":
